@@ -137,6 +137,8 @@ func c18(c *Ctx) {
 	// typed zero value of each of them (C09.R1)
 	if !c.importing {
 		importSibling(c, "C09", "C18.R6", func(rule string) bool { return rule == "C09.R1" })
+		// R8: In over a variadic call evaluates the expanded argument list wherever there is a packed slice to expand (C04.R4)
+		importSiblingWhere(c, "C04", "C18.R8", func(rule string) bool { return rule == "C04.R4" }, func(cons string) bool { return strings.Contains(cons, "arg.") })
 	}
 	r.Expl = "Structural clauses behind 'argument expressions form a consistent predicate algebra': evaluating any Expr (and everything it statically calls in package arg) writes no non-local memory, so an evaluation cannot change a later answer; Any's Eval returns (true,nil) on every path; In resolves its rows through the same constructor that wraps plain values in Equals and its evaluation is a disjunction over rows of a conjunction over positions (false only after all rows were tried); in the equality cascade every Value.Elem() is guarded by a Ptr/Interface kind test and is unreachable when the nil test of that operand is true. Equality semantics over all values is not decided."
 	r.RuleText = "one obligation per (rule, Expr implementation / function / call site)"
@@ -186,6 +188,21 @@ func c18(c *Ctx) {
 				case *ssa.MapUpdate:
 					if _, ok := x.Map.(*ssa.MakeMap); !ok {
 						bad = shortName(f) + " updates a map at " + p.Pos(posOf(i))
+					}
+				case ssa.CallInstruction:
+					// library mutators applied to memory that outlives the call: sync.Map, sync/atomic, sync.Pool, container types
+					cn := calleeName(x.Common())
+					mut := false
+					for _, pre := range []string{"(*sync.Map).Store", "(*sync.Map).LoadOrStore", "(*sync.Map).Delete", "(*sync.Map).LoadAndDelete", "(*sync.Map).Swap", "(*sync.Map).CompareAndSwap", "(*sync.Map).CompareAndDelete", "(*sync.Map).Clear", "(*sync.Pool).Put", "sync/atomic.Store", "sync/atomic.Add", "sync/atomic.Swap", "sync/atomic.CompareAndSwap", "(*sync/atomic."} {
+						if strings.HasPrefix(cn, pre) {
+							mut = true
+						}
+					}
+					if strings.HasPrefix(cn, "(*sync/atomic.") && strings.HasSuffix(cn, ").Load") {
+						mut = false
+					}
+					if mut && len(x.Common().Args) > 0 && !isLocalAddr(x.Common().Args[0]) {
+						bad = shortName(f) + " calls " + cn + " on non-local memory at " + p.Pos(posOf(i))
 					}
 				}
 			})
@@ -775,6 +792,41 @@ func c18(c *Ctx) {
 			r.Check(okF, "C18.R4", "deep comparison in "+shortName(f)+" comes after the func test of its operands", p.Pos(posOf(cl)), "isFunc(x) on the value handed to DeepEqual",
 				"the func-identity test is made on other values than the ones finally compared (e.g. before pointers/interfaces were unwrapped): a func passed through an interface-typed parameter reaches DeepEqual, which is false for any two non-nil funcs, so Equals(f) rejects f")
 		}
+	}
+	// (f) operand values are never compared with == as interface values: that compares pointers by address (the property
+	// demands pointee equality) and panics on uncomparable dynamic types
+	{
+		nCmp := 0
+		bad := ""
+		for _, f := range p.FuncsIn("arg") {
+			if f.Blocks == nil {
+				continue
+			}
+			eachInstr(f, func(i ssa.Instruction) {
+				bo, ok := i.(*ssa.BinOp)
+				if !ok || (bo.Op != token.EQL && bo.Op != token.NEQ) {
+					return
+				}
+				if !types.IsInterface(bo.X.Type()) || !types.IsInterface(bo.Y.Type()) || isNilConst(bo.X) || isNilConst(bo.Y) {
+					return
+				}
+				fromValue := func(v ssa.Value) bool {
+					for _, a := range origins(v) {
+						if c, ok := a.V.(*ssa.Call); ok && calleeName(c.Common()) == "(reflect.Value).Interface" {
+							return true
+						}
+					}
+					return false
+				}
+				nCmp++
+				if fromValue(bo.X) && fromValue(bo.Y) {
+					bad = shortName(f) + " at " + p.Pos(posOf(bo))
+				}
+			})
+		}
+		r.Check(bad == "", "C18.R4", "operands are not compared as interface values with ==", "", "no Value.Interface() == Value.Interface()",
+			"two operands are compared with == after Value.Interface() ("+bad+"): pointers (also inside structs) are then equal only when they are the same address, not when they point to equal values, and an uncomparable dynamic type panics")
+		r.Stat("interface_comparisons_seen", nCmp)
 	}
 	// (e) a partial comparison helper — results (answer, decided) — declares the question decided only for the kinds it is
 	// written for: every return with decided == true lies behind a kind test (or kind predicate) of an operand that held
